@@ -7,7 +7,11 @@ Whatever is not listed below raises `Untranslatable(node, reason)`; nothing is g
 VALUES   int -> Z;  bool -> bool;  list / tuple / Sequence / torch.Size / iterator of T -> list T;  a fixed-length tuple
          display (a, b) -> a Gallina pair;  Tensor -> PyPrelude.tensor (offset, numel, shape);  float hyperparameters ->
          Hyper.pynum (only compared, never computed with);  `int | Sequence[int]` -> a Gallina sum type listed in `UNIONS`;
-         Callable[[int], int] -> a total function Z -> Z;  an exception object passed as argument -> py_exception (opaque).
+         Callable[[int], int] -> a total function Z -> Z;  an exception object passed as argument -> py_exception (opaque);
+         str -> String.string;  a dict with keys of a type K listed in EQB -> `dict (K * V)` = the list of its items in insertion
+         order (Gallina list (K * V); PyPrelude.py_dict_*);  a nested dict of tensors / plain values -> StateDict.tree (`tree`,
+         with `key`, `lf`: types of the hand model, used as types only);  a value obtained by walking into a local dict with
+         setdefault -> a reference PyTree.ref (`ref:<root>`).
          Parameter types come from the annotations (`ANN`) or from the target (`Target.types`); the types of locals are inferred
          from the expressions bound to them.
 OUTCOMES every translated function returns `result T`: `Ret v`, `Raise <class> <site>` or `OutOfFuel` (PyPrelude.v).
@@ -41,6 +45,18 @@ EXPRESSIONS (e : T means "e has inferred type T")
   sorted(idx, key=l.__getitem__, reverse=True)                  py_sorted_desc_getitem l idx: keys l[i] first (IndexError), then as above
   h[0] for a heapified h                                        pq_peek h: the least element (heap invariant), IndexError if empty
   g(e) with g a Callable parameter;  lambda x: e as an argument  application;  (fun x => e) with a pure int e
+  {}, {k: v}; d[k]; k in d, k not in d; a | b; d.items()       [], [(k, v)]; py_dict_getitem (KeyError); py_dict_contains; py_dict_or; d
+  a if isinstance(x, dict) else b                               for x of a type in DICT_UNIONS (tree): match x with Node d => a | Leaf l => b
+  reduce(or_, l, init)                                          fold_left py_dict_or l init
+  reduce(lambda a, x: e, l, init)                               py_for (fun a x => e) l init; with e = a.setdefault(x, {}) and init a
+                                                                never-aliased local dict of trees: a setdefault walk, a is a reference
+                                                                (PyTree.ref_root init, ref_setdefault: AttributeError on a non-dict)
+  (e for a, b in l), [e for a, b in l]                          comprehension over a list of pairs (d.items())
+  f(e, ..) for f in Target.foreign (json.dumps, json.loads)     application of a module parameter: total (`dumps l`) or partial
+                                                                (`py_of_option (loads s) ValueError`)
+  sorted(l) on str, "sep".join(l)                               py_sorted_str (byte-wise order), py_str_join;  l.sort() as a statement on
+                                                                a never-aliased local list of str: re-binding to py_sorted_str l
+  h(e, ..) for a module-level function h of the same file that consists of one `return e'`: e' with the arguments substituted
   compress(l, s) chain(l1, l2) accumulate(l) pairwise(l)       py_compress, ++, py_accumulate, py_pairwise
   range(n), range(a, b)                                        py_range
   t.size() t.numel() t.narrow(0, a, n) t.view(l)               t_shape t_len t_narrow0 t_view (first argument of narrow must be 0)
@@ -52,6 +68,11 @@ STATEMENTS (a block is translated together with "what follows it", so a variable
   x = e, x: T = e               let x := e in ...        (`x = f(..)` : bind (f ..) (fun x => ...))
   (a, b) = e                    let '(a, b) := e in ...  for a pair e
   a, *rest = l                  bind (py_uncons l) (fun '(a, rest) => ...)      (ValueError on an empty l)
+  *init, a = l                  bind (py_unsnoc l) (fun '(init, a) => ...)      (ValueError on an empty l)
+  d[k] = v, d |= e              on a never-aliased local dict: re-binding of d to py_dict_set eqb k v d / py_dict_or eqb d e
+  x = d                         for a never-aliased local dict d of trees: x is a reference to d (ref_root d)
+  x[k] = v                      for a reference x into d: re-binding of d to what ref_setitem x k v returns (TypeError on a plain
+                                value, UnmodelledEffect on a tensor); the references into d are stale afterwards and cannot be used
   x[i] = e, x.append(e)         re-binding of x to py_setitem x i e / x ++ [e]; only if x is a local initialised by a list
   x[i] += e, x[i] -= e          display, a list comprehension, list(..) or [..] * n that is never aliased (never bound to another
                                 name, stored or passed on), or a list owned by self listed in Target.state (below)
@@ -74,7 +95,9 @@ STATEMENTS (a block is translated together with "what follows it", so a variable
                                 `raise p` for a parameter p annotated Exception is Raise PassedException k;
                                 a function annotated `-> None` may fall off the end or `return` without a value: Ret tt
   def g(...) inside a function  lifted to a top-level definition; the enclosing function's variables it reads become its
-                                leading parameters (they must not be re-bound after the def)
+                                leading parameters (they must not be re-bound after the def).  A nested def that consists of one
+                                `return e` and calls the enclosing function back (mutual recursion) is not lifted: each call of it
+                                is replaced by e with the arguments substituted, so that the enclosing function is directly recursive
   docstrings, pass, calls listed in Target.ignore_calls (logging), bare f-strings whose fields cannot raise      no effect
   decorators                    only staticmethod / classmethod / abstractmethod / torch.no_grad() (no effect on the value)
 STATE    Target.state lists `self.x` attributes (lists) that the function updates in place: they become parameters AND results -
@@ -96,6 +119,7 @@ from __future__ import annotations
 
 import ast
 import hashlib
+import re
 from dataclasses import dataclass, field
 from fractions import Fraction
 from pathlib import Path
@@ -112,14 +136,17 @@ ANN = {"int": "Z", "bool": "bool", "Sequence[int]": "list Z", "tuple[int, ...]":
        "Sequence[bool]": "list bool", "Tensor": "tensor", "list[Tensor]": "list tensor", "tuple[Tensor, ...]": "list tensor",
        "float": "pynum", "tuple[float, float]": "(pynum * pynum)", "Iterator[tuple[int, int]]": "list (Z * Z)",
        "tuple[tuple[int, int], ...]": "list (Z * Z)", "list[bool]": "list bool", "Callable[[int], int]": "(Z -> Z)", "None": "unit",
-       "Exception": "py_exception"}
+       "Exception": "py_exception", "str": "string"}
 # `int | Sequence[int]`-like parameters: Gallina sum type -> (constructor, type) of the Sequence case and of the scalar case
 UNIONS = {"iro_t": (("IroSeq", "list pynum"), ("IroScalar", "pynum")), "root_override": (("OvList", "list Z"), ("OvInt", "Z"))}
 EXN = {"ValueError", "AssertionError", "IndexError", "ZeroDivisionError", "TypeError", "NotImplementedError", "ArithmeticError"}
+# `x: dict | Tensor`-like values: Gallina sum type -> (constructor, type) of the dict case and of the other case
+DICT_UNIONS = {"tree": (("Node", "dict (key * tree)"), ("Leaf", "lf"))}
+EQB = {"key": "key_eqb", "fkey": "fkey_eqb", "string": "String.eqb", "nat": "Nat.eqb", "Z": "Z.eqb"}      # == of dict keys, by key type
 HEAPQ = ("heapq.heapify", "heapq.heappush", "heapq.heappop", "heapq.heapreplace")
 HEAP = "heap"            # type of a local list of int pairs after heapq.heapify: only heapq calls and h[0] (the least element) are allowed on it
 RESERVED = {"end", "in", "at", "fix", "fun", "forall", "exists", "match", "with", "let", "if", "then", "else", "as", "return", "using", "where",
-            "Type", "Set", "Prop", "fuel", "bind", "Ret", "Raise", "result", "list", "length", "map", "filter", "fst", "snd", "tensor", "nat", "Z", "bool", "S", "O"}
+            "Type", "Set", "Prop", "fuel", "key", "tree", "lf", "ref", "string", "dumps", "loads", "fkey", "bind", "Ret", "Raise", "result", "list", "length", "map", "filter", "fst", "snd", "tensor", "nat", "Z", "bool", "S", "O"}
 
 
 @dataclass
@@ -140,10 +167,16 @@ class Target:
     site_base: int = 0             # added to the ordinals of this function's raise/assert sites (unique sites across functions)
     calls: dict = field(default_factory=dict)        # source text of a callee expression -> coq_name of a function translated earlier in the run
     state: list = field(default_factory=list)        # [(source text, name, type)]: lists owned by `self` that the function updates in place
+    foreign: dict = field(default_factory=dict)      # source text of a foreign function -> (Gallina function, [argument types], result type,
+                                                     # exception class or None): a parameter of the generated module, pure and total
+                                                     # (None) or partial (returns option; None = the exception)
 
 
 def is_list(t): return t.startswith("list ")
-def same(t1, t2): return t1 == t2 or (is_list(t1) and is_list(t2) and "list ?" in (t1, t2))     # `list ?`: an empty display, element type open
+def is_dict(t): return t.startswith("dict ")                 # dict (K * V): Gallina list (K * V), the items in insertion order
+def dict_kv(t): return t[6:-1].split(" * ", 1)
+def gtype(t): return re.sub(r"\bstring\b", "String.string", t.replace("dict (", "list ("))      # the Gallina spelling of a type
+def same(t1, t2): return t1 == t2 or (is_list(t1) and is_list(t2) and "list ?" in (t1, t2)) or (is_dict(t1) and is_dict(t2) and "dict ?" in (t1, t2))     # `list ?`: an empty display, element type open
 def elem(t): return t[5:].strip() if not t[5:].startswith("(") else t[5:]
 def ident(n): return n + "_" if n in RESERVED else n
 def unp(n): return ast.unparse(n)
@@ -259,6 +292,9 @@ class Fn:
         op = type(n.op).__name__
         if op == "Add" and is_list(tl) and same(tl, tr_):
             return bl + br, f"({cl} ++ {cr})", (tr_ if tl == "list ?" else tl)
+        if op == "BitOr" and is_dict(tl) and same(tl, tr_):                      # a | b on dicts
+            ty = tr_ if tl == "dict ?" else tl
+            return bl + br, f"(py_dict_or {self.dict_eqb(n, ty)} {cl} {cr})", ty
         if op == "Mult" and is_list(tl) and tr_ == "Z":
             return bl + br, f"(py_list_mul {cl} {cr})", tl
         if tl != "Z" or tr_ != "Z":
@@ -323,6 +359,13 @@ class Fn:
         return f"(negb {c})" if neg else c
 
     def e_Compare(self, n, env, want):
+        if len(n.ops) == 1 and isinstance(n.ops[0], (ast.In, ast.NotIn)):             # k in d / k not in d on a dict
+            bk, ck, tk = self.expr(n.left, env)
+            bd, cd, td = self.expr(n.comparators[0], env)
+            if not is_dict(td) or td == "dict ?" or dict_kv(td)[0] != tk:
+                raise Untranslatable(n, f"`in` between a {tk} and a {td}")
+            c = f"(py_dict_contains {self.dict_eqb(n, td)} {ck} {cd})"
+            return bk + bd, (c if isinstance(n.ops[0], ast.In) else f"(negb {c})"), "bool"
         operands = [n.left, *n.comparators]
         # type of the non-literal side decides how literals are read
         ty = next((self.expr(x, env)[2] for x in operands if not self.is_lit(x) and not isinstance(x, ast.List)), "Z")
@@ -345,6 +388,18 @@ class Fn:
         return binds, code, "bool"
 
     def e_IfExp(self, n, env, want):
+        t = n.test
+        if isinstance(t, ast.Call) and unp(t.func) == "isinstance" and len(t.args) == 2 and isinstance(t.args[0], ast.Name) \
+                and unp(t.args[1]) == "dict" and env.get(t.args[0].id) in DICT_UNIONS:      # a if isinstance(x, dict) else b: a match on x
+            x, ren = t.args[0].id, env.get("@ren", {})
+            (dc, dt), (oc, ot) = DICT_UNIONS[env[x]]
+            gx = self.gname(x, env)
+            b1, c1, t1 = self.expr(n.body, {**env, x: dt, "@ren": {**ren, x: gx + "_dict"}}, want)
+            b2, c2, t2 = self.expr(n.orelse, {**env, x: ot, "@ren": {**ren, x: gx + "_leaf"}}, want)
+            if not same(t1, t2):
+                raise Untranslatable(n, f"conditional expression with branches of types {t1} and {t2}")
+            tmp = self.fresh()
+            return [(tmp, f"(match {gx} with\n| {dc} {gx}_dict => {self.wrap(b1, 'Ret ' + c1)}\n| {oc} {gx}_leaf => {self.wrap(b2, 'Ret ' + c2)}\nend)")], tmp, (t2 if t1 == "dict ?" else t1)
         bc, cc = self.truthy(n.test, env)
         b1, c1, t1 = self.expr(n.body, env, want)
         b2, c2, t2 = self.expr(n.orelse, env, want)
@@ -383,6 +438,22 @@ class Fn:
             raise Untranslatable(n, f"list display with element types {ts}")
         return b, "[" + "; ".join(cs) + "]", "list " + ts[0]
 
+    def e_Dict(self, n, env, want):
+        if not n.keys:
+            return [], "[]", (want if want and is_dict(want) else "dict ?")
+        if len(n.keys) != 1 or n.keys[0] is None:
+            raise Untranslatable(n, "dict display with more than one item / with ** unpacking")
+        bk, ck, tk = self.expr(n.keys[0], env)
+        bv, cv, tv = self.expr(n.values[0], env)
+        if tk not in EQB:
+            raise Untranslatable(n, f"dict keys of type {tk}")
+        return bk + bv, f"[({ck}, {cv})]", f"dict ({tk} * {tv})"
+
+    def dict_eqb(self, node, t):
+        if not is_dict(t) or t == "dict ?" or dict_kv(t)[0] not in EQB:
+            raise Untranslatable(node, f"dict operation on a {t}")
+        return EQB[dict_kv(t)[0]]
+
     def e_Tuple(self, n, env, want):
         b, cs, ts = self.seq_of(n.elts, env)
         if len(cs) < 2:
@@ -401,6 +472,12 @@ class Fn:
         if t.startswith("(") and t.count("*") == 1 and isinstance(n.slice, ast.Constant) and n.slice.value in (0, 1):
             a, bb = t[1:-1].split(" * ")
             return b, f"({'fst' if n.slice.value == 0 else 'snd'} {c})", (a if n.slice.value == 0 else bb)
+        if is_dict(t) and t != "dict ?":                                                # d[k]: KeyError if absent
+            bi, ci, ti = self.expr(n.slice, env)
+            if ti != dict_kv(t)[0]:
+                raise Untranslatable(n, f"lookup of a {ti} in a {t}")
+            tmp = self.fresh()
+            return b + bi + [(tmp, f"(py_dict_getitem {self.dict_eqb(n, t)} {c} {ci})")], tmp, dict_kv(t)[1]
         if t == HEAP and isinstance(n.slice, ast.Constant) and n.slice.value == 0:
             tmp = self.fresh()
             return b + [(tmp, f"(pq_peek {c})")], tmp, "(Z * Z)"
@@ -422,12 +499,23 @@ class Fn:
 
     def comprehension(self, node, env):
         """[e for x in l] / (e for x in l) as the argument of tuple()/list(): map, or py_mapM when e can raise"""
-        if len(node.generators) != 1 or node.generators[0].is_async or not isinstance(node.generators[0].target, ast.Name):
-            raise Untranslatable(node, "comprehension with several `for` or a tuple target")
+        if len(node.generators) != 1 or node.generators[0].is_async:
+            raise Untranslatable(node, "comprehension with several `for`")
         g = node.generators[0]
         b, c, t = self.expr(g.iter, env)
         if not is_list(t):
             raise Untranslatable(node, f"comprehension over a {t}")
+        if isinstance(g.target, ast.Tuple) and len(g.target.elts) == 2 and all(isinstance(e, ast.Name) for e in g.target.elts) \
+                and elem(t).startswith("(") and elem(t).count(" * ") == 1 and not g.ifs:              # (e for a, b in <list of pairs>)
+            names, tys = [e.id for e in g.target.elts], elem(t)[1:-1].split(" * ")
+            be, ce, te = self.expr(node.elt, {**env, **dict(zip(names, tys))})
+            pat = "'(" + ", ".join(map(ident, names)) + ")"
+            if not be:
+                return b, f"(map (fun {pat} => {ce}) {c})", "list " + te
+            tmp = self.fresh()
+            return b + [(tmp, f"(py_mapM (fun {pat} =>\n{self.wrap(be, 'Ret ' + ce)}) {c})")], tmp, "list " + te
+        if not isinstance(g.target, ast.Name):
+            raise Untranslatable(node, "comprehension target other than a name or a pair of names over a list of pairs")
         for cond in g.ifs:                                 # [.. for x in l if c]: the elements of l that satisfy c (c pure), in order
             c = f"(filter {self.pure_lambda(g.target.id, cond, env, elem(t), node)} {c})"
         if isinstance(node.elt, ast.Name) and node.elt.id == g.target.id:
@@ -439,6 +527,34 @@ class Fn:
         tmp = self.fresh()
         return b + [(tmp, f"(py_mapM (fun {x} =>\n{self.wrap(be, 'Ret ' + ce)}) {c})")], tmp, "list " + te
 
+    def reduce(self, n, env):
+        """reduce(or_, l, init) on dicts: fold_left py_dict_or;  reduce(lambda a, x: e, l, init): py_for (fun a x => e) l init.
+        reduce(lambda a, k: a.setdefault(k, {}), ks, root) with root a never-aliased local dict: the accumulator is a REFERENCE
+        into root (PyTree.ref), starting at ref_root root."""
+        fn, it, init = n.args
+        bl, cl, tl = self.comprehension(it, env) if isinstance(it, ast.GeneratorExp) else self.expr(it, env)
+        if not is_list(tl):
+            raise Untranslatable(n, f"reduce over a {tl}")
+        bi, ci, ti = self.expr(init, env, "dict ?" if isinstance(init, ast.Dict) else None)
+        if unp(fn) == "or_":
+            ty = elem(tl) if ti == "dict ?" else ti
+            if not same(ty, elem(tl)):
+                raise Untranslatable(n, f"reduce(or_) of {tl} from a {ti}")
+            return bl + bi, f"(fold_left (fun a_ b_ => py_dict_or {self.dict_eqb(n, ty)} a_ b_) {cl} {ci})", ty
+        if not (isinstance(fn, ast.Lambda) and len(fn.args.args) == 2 and not fn.args.defaults):
+            raise Untranslatable(n, "reduce with a function other than or_ / a two-argument lambda")
+        a, x = fn.args.args[0].arg, fn.args.args[1].arg
+        walk = isinstance(fn.body, ast.Call) and isinstance(fn.body.func, ast.Attribute) and fn.body.func.attr == "setdefault" and unp(fn.body.func.value) == a
+        if walk:
+            if not (isinstance(init, ast.Name) and init.id in self.mutated and ti == "dict (key * tree)"):
+                raise Untranslatable(n, "setdefault walk from something else than a never-aliased local dict of trees")
+            ci, ti = f"(ref_root {ci})", "ref:" + init.id
+        be, ce, te = self.expr(fn.body, {**env, a: ti, x: elem(tl)})
+        if te != ti:
+            raise Untranslatable(n, f"reduce whose function maps a {ti} to a {te}")
+        tmp = self.fresh()
+        return bl + bi + [(tmp, f"(py_for (fun {ident(a)} {ident(x)} =>\n{self.wrap(be, 'Ret ' + ce)}) {cl} {ci})")], tmp, ti
+
     def e_ListComp(self, n, env, want):
         return self.comprehension(n, env)
 
@@ -447,6 +563,55 @@ class Fn:
         args, kws = n.args, n.keywords
         if f in self.tgt.calls or f in self.tr.funcs:                                 # translated function (nested, itself, or earlier target)
             return self.call_known(n, f, env)
+        if isinstance(n.func, ast.Name) and f not in env and f in self.tr.helpers:    # a module-level function of the same file that is one
+            h = self.tr.helpers[f]                                                     # `return e`: the call is replaced by e
+            vals = self.match_args(n, [a.arg for a in h.args.args], args, kws)
+            binds, e2 = [], {k: v for k, v in env.items() if k.startswith("@")}       # only its own parameters are visible to e
+            ren = {}
+            for a, v in zip(h.args.args, vals):
+                b, c, t = self.expr(v, env, self.tr.ann(a.annotation, self.tgt, None))
+                if not same(t, self.tr.ann(a.annotation, self.tgt, None)):
+                    raise Untranslatable(n, f"argument `{a.arg}` of {f} has type {t}")
+                binds += b
+                e2[a.arg], ren[a.arg] = t, c
+            self.tr.helpers = {k: v for k, v in self.tr.helpers.items() if k != f}    # no recursion through helpers
+            try:
+                b, c, t = self.expr(h.body[-1].value, {**e2, "@ren": ren}, want)
+            finally:
+                self.tr.helpers[f] = h
+            return binds + b, c, t
+        if f in self.tgt.foreign and not kws:                                         # a foreign function that is a parameter of the module
+            gname, atys, rty, exc = self.tgt.foreign[f]
+            b, cs, ts = self.seq_of(args, env)
+            if ts != atys:
+                raise Untranslatable(n, f"{f} applied to {ts}, declared for {atys}")
+            call = "(" + " ".join([gname, *cs]) + ")"
+            if exc is None:
+                return b, call, rty
+            tmp = self.fresh()
+            return b + [(tmp, f"(py_of_option {call} {exc})")], tmp, rty
+        if f == "reduce" and len(args) == 3 and not kws:
+            return self.reduce(n, env)
+        if isinstance(n.func, ast.Attribute) and n.func.attr == "items" and not args and not kws:
+            b, c, t = self.expr(n.func.value, env)
+            if is_dict(t) and t != "dict ?":
+                return b, c, "list " + t[5:]                                          # d.items(): the (key, value) pairs in insertion order
+        if isinstance(n.func, ast.Attribute) and n.func.attr == "setdefault" and len(args) == 2 and not kws \
+                and isinstance(args[1], ast.Dict) and not args[1].keys:               # r.setdefault(k, {}) on a reference into a local dict
+            b, c, t = self.expr(n.func.value, env)
+            bk, ck, tk = self.expr(args[0], env)
+            if t.startswith("ref:") and tk == "key":
+                tmp = self.fresh()
+                return b + bk + [(tmp, f"(ref_setdefault {c} {ck})")], tmp, t
+        if isinstance(n.func, ast.Attribute) and n.func.attr == "join" and len(args) == 1 and not kws \
+                and isinstance(n.func.value, ast.Constant) and isinstance(n.func.value.value, str) and '"' not in n.func.value.value:
+            b, c, t = self.expr(args[0], env)                                         # "sep".join(l)
+            if t == "list string":
+                return b, f'(py_str_join "{n.func.value.value}"%string {c})', "string"
+        if f == "sorted" and len(args) == 1 and not kws:                              # sorted(l) on strings
+            b, c, t = self.comprehension(args[0], env) if isinstance(args[0], ast.GeneratorExp) else self.expr(args[0], env)
+            if t == "list string":
+                return b, f"(py_sorted_str {c})", t
         if isinstance(n.func, ast.Name) and env.get(f) == "(Z -> Z)" and len(args) == 1 and not kws:      # a callable parameter: total function
             b, c, t = self.expr(args[0], env)
             if t != "Z":
@@ -586,6 +751,7 @@ class Fn:
         binds, codes = [], []
         # Python evaluates the arguments in the order they are WRITTEN (positional, then keywords)
         written = list(n.args) + [k.value for k in n.keywords]
+        ptype = {id(v): ty for (_, ty), v in zip(info["params"], vals)}
         done = {}
         for v in written:
             if isinstance(v, ast.Lambda) and len(v.args.args) == 1 and not v.args.defaults:      # lambda x: <pure int expression> for a callable parameter
@@ -594,17 +760,27 @@ class Fn:
                     raise Untranslatable(v, "lambda argument whose body can raise or is not an int")
                 b, c, t = [], f"(fun {ident(v.args.args[0].arg)} => {cl})", "(Z -> Z)"
             else:
-                b, c, t = self.expr(v, env)
+                b, c, t = self.expr(v, env, ptype.get(id(v)))
             binds += b
             done[id(v)] = (c, t)
         for (p, ty), v in zip(info["params"], vals):
             c, t = done[id(v)]
-            if t != ty:
+            if not same(t, ty):
                 raise Untranslatable(n, f"argument `{p}` of {f} has type {t}, expected {ty}")
             codes.append(c)
         for cv in info["closure"]:
             if cv not in env:
                 raise Untranslatable(n, f"closure variable {cv} of {f} is not bound here")
+        if "inline" in info:
+            free = {x.id for x in ast.walk(info["inline"]) if isinstance(x, ast.Name)}
+            shadow = [k for k in env if not k.startswith("@") and k not in info["defenv"] and k in free and k not in dict(info["params"])]
+            if shadow:
+                raise Untranslatable(n, f"{shadow} at the call of {f} would capture names of its body")
+            e2 = {**env, **dict(info["params"]), "@ren": {**env.get("@ren", {}), **{p: c for (p, _), c in zip(info["params"], codes)}}}
+            b, c, t = self.expr(info["inline"], e2, info["ret"])
+            if info["ret"] is not None and not same(info["ret"], t):
+                raise Untranslatable(n, f"{f} returns a {t}, annotated {info['ret']}")
+            return binds + b, c, (info["ret"] if t in ("dict ?", "list ?") else t)
         pre = [ident(cv) for cv in info["closure"]]
         mine = {pn: ty for _, pn, ty in self.tgt.atoms}
         for pn, ty in info.get("atoms", []):          # attributes of the same `self` that the callee reads: passed on under the same name
@@ -669,6 +845,16 @@ class Fn:
                 if v in self.state or v in env.get("@ren", {}) or v in env.get("@alias", {}):
                     raise Untranslatable(s, f"`{v}` cannot be re-bound here")
             return self.wrap(b, f"bind (py_uncons {c}) (fun '({ident(a)}, {ident(r)}) =>\n{nxt({**env, a: elem(t), r: t})})")
+        if isinstance(tg, ast.Tuple) and len(tg.elts) == 2 and isinstance(tg.elts[1], ast.Name) and isinstance(tg.elts[0], ast.Starred) \
+                and isinstance(tg.elts[0].value, ast.Name):                               # *init, last = l  (ValueError if l is empty)
+            b, c, t = self.expr(s.value, env)
+            if not is_list(t):
+                raise Untranslatable(s, f"star-unpacking of a {t}")
+            r, a = tg.elts[0].value.id, tg.elts[1].id
+            for v in (a, r):
+                if v in self.state or v in env.get("@ren", {}) or v in env.get("@alias", {}):
+                    raise Untranslatable(s, f"`{v}` cannot be re-bound here")
+            return self.wrap(b, f"bind (py_unsnoc {c}) (fun '({ident(r)}, {ident(a)}) =>\n{nxt({**env, a: elem(t), r: t})})")
         if isinstance(tg, ast.Tuple) and all(isinstance(e, ast.Name) for e in tg.elts):  # (a, b) = <pair>
             b, c, t = self.expr(s.value, env)
             if not (t.startswith("(") and t.count("*") == len(tg.elts) - 1 == 1):
@@ -685,6 +871,13 @@ class Fn:
             if tg.id in env or tg.id in self.state:
                 raise Untranslatable(s, f"`{tg.id}` is already bound; it cannot become an alias of a list owned by self")
             return nxt({**env, "@alias": {**env.get("@alias", {}), tg.id: self.atom(s.value)[0]}})
+        if isinstance(tg, ast.Name) and isinstance(s.value, ast.Name) and s.value.id in self.mutated:
+            # x = d for a never-aliased local dict d of trees: x is a REFERENCE to d (PyTree.ref_root); for any other updatable local
+            # a second name would be an untracked alias
+            root = s.value.id
+            if env.get(root) != "dict (key * tree)" or tg.id in self.state or tg.id == root:
+                raise Untranslatable(s, f"`{tg.id} = {root}` makes an alias of an updatable local that is not a dict of trees")
+            return f"let {ident(tg.id)} := ref_root {ident(root)} in\n{nxt({**env, tg.id: 'ref:' + root})}"
         if isinstance(tg, ast.Name):
             want = env.get(tg.id)
             b, c, t = self.expr(s.value, env, want)
@@ -692,6 +885,27 @@ class Fn:
         if isinstance(tg, ast.Subscript) and (isinstance(tg.value, ast.Name) or self.atom(tg.value)) and not isinstance(tg.slice, ast.Slice):
             x = tg.value.id if isinstance(tg.value, ast.Name) else self.atom(tg.value)[0]
             x = env.get("@alias", {}).get(x, x)
+            if env.get(x, "").startswith("ref:"):                                   # r[k] = v through a reference: the root dict changes
+                root = env[x][4:]
+                self.check_mutable(root, s)
+                bk, ck, tk = self.expr(tg.slice, env)
+                bv, cv, tv = self.expr(s.value, env)
+                cv, tv = (f"(Leaf {cv})", "tree") if tv == "lf" else (cv, tv)         # a leaf stored in a dict of trees
+                if tk != "key" or tv != "tree":
+                    raise Untranslatable(s, f"assignment of a {tv} under a {tk} through a reference into a dict of trees")
+                e2 = {k: v for k, v in env.items() if not (isinstance(v, str) and v == "ref:" + root)}      # the root is re-bound: its references are stale
+                return self.wrap(bv + bk, f"bind (ref_setitem {ident(x)} {ck} {cv}) (fun {ident(root)} =>\n{nxt(e2)})")
+            if is_dict(env.get(x, "")):                                             # d[k] = v on a never-aliased local dict
+                self.check_mutable(x, s)
+                bk, ck, tk = self.expr(tg.slice, env)
+                bv, cv, tv = self.expr(s.value, env)
+                dk, dv = dict_kv(env[x]) if env[x] != "dict ?" else (tk, tv)
+                cv, tv = (f"(Leaf {cv})", "tree") if (tv, dv) == ("lf", "tree") else (cv, tv)
+                if (tk, tv) != (dk, dv):
+                    raise Untranslatable(s, f"item assignment {tk} -> {tv} into a {env[x]}")
+                ty = f"dict ({dk} * {dv})"
+                e2 = {k: v for k, v in env.items() if not (isinstance(v, str) and v == "ref:" + x)}
+                return self.wrap(bv + bk, f"let {ident(x)} := py_dict_set {self.dict_eqb(s, ty)} {ck} {cv} {ident(x)} in\n{nxt({**e2, x: ty})}")
             self.check_mutable(x, s)
             if x not in env or not is_list(env[x]):
                 raise Untranslatable(s, f"`{x}` is not a bound list")
@@ -707,12 +921,24 @@ class Fn:
     def s_AnnAssign(self, s, env, nxt):
         if s.value is None or not isinstance(s.target, ast.Name):
             raise Untranslatable(s, "annotated assignment without a value / to a non-name")
-        b, c, t = self.expr(s.value, env, self.tr.ann(s.annotation, self.tgt, None))
-        return self.bind_var(s.target.id, b, c, t, env, nxt, s)
+        try:
+            want = self.tr.ann(s.annotation, self.tgt, s.target.id)
+        except Untranslatable:
+            want = None                                    # the annotation of a local is only a hint
+        b, c, t = self.expr(s.value, env, want)
+        return self.bind_var(s.target.id, b, c, (want if want and t in ("dict ?", "list ?") and same(want, t) else t), env, nxt, s)
 
     def s_AugAssign(self, s, env, nxt):
         """x[i] += e  is  x[i] = x[i] + e  with x and i evaluated once (i is required to be pure)"""
         tg = s.target
+        if isinstance(tg, ast.Name) and isinstance(s.op, ast.BitOr) and is_dict(env.get(tg.id, "")):      # d |= e: d.update(e) in place
+            self.check_mutable(tg.id, s)
+            b, c, t = self.expr(s.value, env, env[tg.id])
+            if not same(t, env[tg.id]):
+                raise Untranslatable(s, f"`|=` of a {t} into a {env[tg.id]}")
+            ty = t if env[tg.id] == "dict ?" else env[tg.id]
+            e2 = {k: v for k, v in env.items() if not (isinstance(v, str) and v == "ref:" + tg.id)}
+            return self.wrap(b, f"let {ident(tg.id)} := py_dict_or {self.dict_eqb(s, ty)} {ident(tg.id)} {c} in\n{nxt({**e2, tg.id: ty})}")
         if not (isinstance(tg, ast.Subscript) and isinstance(s.op, (ast.Add, ast.Sub)) and not self.expr(tg.slice, env)[0]):
             raise Untranslatable(s, "augmented assignment other than x[i] += e / x[i] -= e with a non-raising index")
         load = ast.Subscript(value=tg.value, slice=tg.slice, ctx=ast.Load())
@@ -744,6 +970,11 @@ class Fn:
             if unp(v.func) == "heapq.heapreplace":         # the popped element is not used: statement form only
                 return self.wrap(b, f"bind (pq_replace {ident(h)} {c}) (fun {ident(h)} =>\n{nxt(env)})")
             return self.wrap(b, f"let {ident(h)} := pq_push {ident(h)} {c} in\n{nxt(env)}")
+        if isinstance(v, ast.Call) and isinstance(v.func, ast.Attribute) and v.func.attr == "sort" and isinstance(v.func.value, ast.Name) \
+                and not v.args and not v.keywords and env.get(v.func.value.id) == "list string":      # l.sort() in place, on strings
+            x = v.func.value.id
+            self.check_mutable(x, s)
+            return self.bind_var(x, [], f"(py_sorted_str {ident(x)})", "list string", env, nxt, s)
         if isinstance(v, ast.Call) and unp(v.func) in self.tgt.calls:                   # e.g. super().__post_init__(): run for its exceptions
             b, c, t = self.expr(v, env)
             return self.wrap(b, nxt(env))
@@ -856,6 +1087,12 @@ class Fn:
                     out.append(n.args[0].id)
                 if isinstance(n, ast.Subscript) and isinstance(n.ctx, ast.Store) and self.atom(n.value) and self.atom(n.value)[0] not in out:
                     out.append(self.atom(n.value)[0])
+                if isinstance(n, ast.Assign) and isinstance(n.value, ast.Name) and n.value.id in self.mutated and n.value.id not in out:
+                    out.append(n.value.id)                 # x = root ... x[k] = v  updates root (x is a reference into it)
+                # x = reduce(lambda a, k: a.setdefault(..), ks, root) ... x[k] = v  updates root
+                if isinstance(n, ast.Assign) and isinstance(n.value, ast.Call) and unp(n.value.func) == "reduce" and len(n.value.args) == 3 \
+                        and isinstance(n.value.args[2], ast.Name) and "setdefault" in unp(n.value.args[0]) and n.value.args[2].id not in out:
+                    out.append(n.value.args[2].id)
         return out
 
     def s_For(self, s, env, nxt):
@@ -879,14 +1116,18 @@ class Fn:
         tup = ident(state[0]) if len(state) == 1 else "(" + ", ".join(map(ident, state)) + ")"
         e2 = {**env, **dict(zip(names, tys))}
 
+        refined = {}
+
         def body_end(e):
             for v in state:
-                if e.get(v) != env[v]:
+                if e.get(v) != env[v] and not (env[v] in ("dict ?", "list ?") and same(e.get(v, ""), env[v])):
                     raise Untranslatable(s, f"loop changes the type of `{v}`")
+                if e.get(v) != env[v]:
+                    refined[v] = e[v]                      # an empty display whose element type the loop body fixes
             return f"Ret {tup}"
         body = self.block(s.body, e2, body_end)
         # names first bound inside the loop are not visible after it
-        return self.wrap(b, f"bind (py_for (fun {pat} {x} =>\n{body}) {c} {tup}) (fun {pat} =>\n{nxt(dict(env))})")
+        return self.wrap(b, f"bind (py_for (fun {pat} {x} =>\n{body}) {c} {tup}) (fun {pat} =>\n{nxt({**env, **refined})})")
 
     def s_FunctionDef(self, s, env, nxt):
         self.tr.function(s, self.tgt, enclosing=(self, env))
@@ -897,6 +1138,7 @@ class Translator:
     def __init__(self, repo: Path):
         self.repo = Path(repo)
         self.funcs: dict = {}          # python name -> {"coq", "params", "closure", "recursive", "ret", "owner"}: nested / recursive functions of the current target
+        self.helpers: dict = {}        # module-level functions of the current file that consist of one `return e` (inlined at calls)
         self.by_qual: dict = {}        # "Class.method" -> coq name of its translation (mode "alias")
         self.exported: dict = {}       # coq name -> the same for every top-level function translated so far (Target.calls)
         self.out: list[str] = []       # Gallina definitions in dependency order
@@ -918,6 +1160,12 @@ class Translator:
         path = self.repo / tgt.file
         src = path.read_text()
         body = ast.parse(src).body
+        self.helpers = {}
+        for fd in body:
+            st = [x for x in fd.body if not (isinstance(x, ast.Expr) and isinstance(x.value, ast.Constant))] if isinstance(fd, ast.FunctionDef) else []
+            if len(st) == 1 and isinstance(st[0], ast.Return) and st[0].value is not None and not fd.decorator_list \
+                    and not (fd.args.vararg or fd.args.kwarg or fd.args.kwonlyargs or fd.args.defaults):
+                self.helpers[fd.name] = ast.FunctionDef(name=fd.name, args=fd.args, body=st, decorator_list=[])
         node = None
         for part in tgt.qualname.split("."):
             node = next((n for n in body if isinstance(n, (ast.ClassDef, ast.FunctionDef)) and n.name == part), None)
@@ -984,7 +1232,8 @@ class Translator:
     def fresh_lists(fdef):
         """locals that may be updated in place: bound exactly once, to a list display, a list comprehension, list(..) or [..] * n, and
         every other occurrence is an in-place update (item assignment, append, heapq call) or a read that cannot create an alias
-        (subscript, len/tuple/list/sum argument, operand of +, return)"""
+        (subscript, len/tuple/list/sum argument, operand of +, return, [*x]), or the start of a setdefault walk (reduce(.., x)),
+        whose result is tracked as a reference into x"""
         parents = {}
         for p in ast.walk(fdef):
             for c in ast.iter_child_nodes(p):
@@ -992,9 +1241,11 @@ class Translator:
         cand, stores = set(), {}
         for n in ast.walk(fdef):
             if isinstance(n, ast.Name) and isinstance(n.ctx, ast.Store):
-                stores[n.id] = stores.get(n.id, 0) + 1
                 p = parents.get(n)
-                fresh = isinstance(p, ast.Assign) and (isinstance(p.value, (ast.List, ast.ListComp)) or (isinstance(p.value, ast.Call) and unp(p.value.func) == "list")
+                if isinstance(p, ast.AugAssign) and isinstance(p.op, ast.BitOr):
+                    continue                               # d |= e is an in-place update, not a binding
+                stores[n.id] = stores.get(n.id, 0) + 1
+                fresh = isinstance(p, (ast.Assign, ast.AnnAssign)) and p.value is not None and (isinstance(p.value, (ast.List, ast.ListComp, ast.Dict)) or (isinstance(p.value, ast.Call) and unp(p.value.func) == "list")
                                                        or (isinstance(p.value, ast.BinOp) and isinstance(p.value.op, ast.Mult) and isinstance(p.value.left, ast.List)))
                 if fresh:
                     cand.add(n.id)
@@ -1004,9 +1255,12 @@ class Translator:
                 p = parents.get(n)
                 safe = (isinstance(p, ast.Subscript) and p.value is n) or (isinstance(p, ast.BinOp) and isinstance(p.op, ast.Add)) \
                     or (isinstance(p, ast.Call) and unp(p.func) in ("len", "tuple", "list", "sum", "prod") and n in p.args) \
-                    or (isinstance(p, ast.Attribute) and p.attr == "append" and p.value is n) or isinstance(p, ast.Return) \
+                    or (isinstance(p, ast.Attribute) and p.attr in ("append", "sort") and p.value is n) or isinstance(p, ast.Return) \
+                    or (isinstance(p, ast.Call) and isinstance(p.func, ast.Attribute) and p.func.attr == "join" and n in p.args) \
                     or (isinstance(p, ast.Call) and unp(p.func) in HEAPQ and p.args and p.args[0] is n) \
-                    or isinstance(p, ast.Starred)                                  # [*x, ..]: copied into a new list
+                    or isinstance(p, ast.Starred) \
+                    or (isinstance(p, ast.Call) and unp(p.func) == "reduce" and len(p.args) == 3 and p.args[2] is n and "setdefault" in unp(p.args[0])) \
+                    or (isinstance(p, ast.Assign) and p.value is n and len(p.targets) == 1 and isinstance(p.targets[0], ast.Name))   # tracked: see s_Assign
                 if not safe:
                     ok.discard(n.id)
         return ok
@@ -1021,7 +1275,7 @@ class Translator:
         return [(x.arg, self.ann(x.annotation, tgt, x.arg)) for x in names]
 
     def emit(self, coq, recursive, params, ret, body):
-        ps = " ".join(f"({ident(p)} : {t})" for p, t in params)
+        ps, ret = " ".join(f"({ident(p)} : {gtype(t)})" for p, t in params), gtype(ret)
         if recursive:
             self.out.append(f"Fixpoint {coq} (fuel : nat) {ps} {{struct fuel}} : result ({ret})%type :=\nmatch fuel with\n| O => OutOfFuel\n| S fuel =>\n{body}\nend.")
         else:
@@ -1035,7 +1289,15 @@ class Translator:
             outer, oenv = enclosing
             closure = [v for v in dict.fromkeys(self.free_names(fdef)) if v in oenv]
         coq = tgt.prefix + (tgt.coq_name if enclosing is None and tgt.coq_name else fdef.name)
-        ret = self.ann(fdef.returns, tgt, None) if fdef.returns is not None else None
+        ret = self.ann(fdef.returns, tgt, fdef.name + ".return") if fdef.returns is not None else None
+        stmts = [x for x in fdef.body if not (isinstance(x, ast.Expr) and isinstance(x.value, ast.Constant))]
+        if enclosing is not None and len(stmts) == 1 and isinstance(stmts[0], ast.Return) and stmts[0].value is not None \
+                and any(isinstance(n, ast.Call) and isinstance(n.func, ast.Name) and n.func.id == enclosing[0].name for n in ast.walk(fdef)):
+            # a nested one-expression function that calls the enclosing function back (mutual recursion): its calls are replaced by
+            # its expression, so that the enclosing function becomes directly recursive
+            self.funcs[fdef.name] = {"inline": stmts[0].value, "params": params, "closure": closure, "recursive": False, "ret": ret,
+                                     "coq": None, "owner": enclosing[0].name, "defenv": set(enclosing[1])}
+            return
         fn = Fn(self, tgt, fdef.name, recursive)
         fn.sites = self.sites_of(fdef)
         fn.ret_type, fn.ret_unit = (None, True) if ret == "unit" else (ret, False)
@@ -1099,20 +1361,22 @@ class Translator:
         body = fn.block(fdef.body[:idx], dict(params), done)
         self.emit(tgt.prefix + (tgt.coq_name or fdef.name), False, params + [(p, ty) for _, p, ty in tgt.atoms], fn.ret_type, body)
 
-    def text(self, header: str = "") -> str:
+    def text(self, header: str = "", preamble: str = "", footer: str = "") -> str:
         return ("(* GENERATED by tools/py2coq.py from the Python source - not committed, regenerated at every run. *)\n"
                 "From Coq Require Import ZArith List Bool.\n" + header + "From ShampooGen Require Import PyPrelude.\n"
-                "Import ListNotations.\nOpen Scope Z_scope.\n\n" + "\n\n".join(self.out) + "\n")
+                "Import ListNotations.\nOpen Scope Z_scope.\n\n" + preamble + "\n\n".join(self.out) + "\n" + footer)
 
 
-def generate(repo, targets: list[Target], header: str = ""):
-    """Translate `targets` from the tree at `repo`; returns (Gallina text, metadata list).  Raises Untranslatable."""
+def generate(repo, targets: list[Target], header: str = "", preamble: str = "", footer: str = ""):
+    """Translate `targets` from the tree at `repo`; returns (Gallina text, metadata list).  Raises Untranslatable.
+    `header`: extra Require lines (hand-model TYPES the values are made of); `preamble` / `footer`: text around the definitions
+    (a Section declaring the foreign functions of Target.foreign as Variables, so that they become arguments)."""
     tr = Translator(repo)
     for t in targets:
         tr.translate(t)
-    if len(tr.text(header)) > 300_000:
+    if len(tr.text(header, preamble, footer)) > 300_000:
         raise Untranslatable(targets[0].qualname, "generated text too large (continuation duplication blew up)")
-    return tr.text(header), tr.meta
+    return tr.text(header, preamble, footer), tr.meta
 
 
 if __name__ == "__main__":
